@@ -3,11 +3,11 @@ from ..facts import AnalysisGap, callee, callee_generic, ctor_of, local_id_of, l
 from .. import flow, hq, sym
 
 EXPLANATION = (
-    "TPL: break_equivalences_formula is evaluated per arm: F <-> G gives [F -> G, F <- G] (same operands, same order), a universally quantified "
+    "TPL: break_equivalences_formula is evaluated on one concrete node of every kind (a theory and the list of its formulas are the same thing): F <-> G gives [F -> G, F <- G] (same operands, same order), a universally quantified "
     "formula gives the broken body re-quantified with the same variable list, anything else is returned unchanged (one formula); the annotated "
     "version keeps role and direction and only extends the name; the theory version flat-maps. decompose_independent = axioms + c_k per conjecture, "
-    "decompose_sequential = axioms + c_0..c_{k-1} re-labelled axiom + c_k, conjectures taken in order, names from the enumerate index. FLOW-READ: "
-    "every read of the fields simplify / break_equivalences / decomposition of the three task structs is a branch condition, a Decomposition "
+    "decompose_sequential = axioms + c_0..c_{k-1} re-labelled axiom + c_k, conjectures taken in order, names from the enumerate index (a map closure with captured state and an explicit loop are the same "
+    "comprehension). FLOW-READ: every read of the fields simplify / break_equivalences / decomposition of the three task structs (directly or through a named local copy) is a branch condition, a Decomposition "
     "dispatch, a pass-through into the next task stage under the same field name, or the argument of Problem::decompose - nothing else depends on "
     "the flags. The simplifiers themselves are C07.")
 UNDECIDED = ["the model-level statement (same refuting interpretations); it follows from these structural facts together with C07's undecided part"]
